@@ -1,76 +1,24 @@
 //go:build verif
 
-package keccakf1600
+package keccakf1600_test
 
-// C15 (lane permutations): StateX2/StateX4.Permute (24 and 12 rounds) equal the scalar
-// sha3.KeccakF1600 on each lane, and the scalar permutation equals Keccak-p[1600,nr] of
-// ref/keccak, on every single-bit state of every lane and on structured states.
-// In-package only to read the alignment offset and to call the scalar fall-backs directly.
+// C15 (lane permutations, exported API only): StateX2/StateX4.Permute (24 and 12 rounds) equal
+// the scalar sha3.KeccakF1600 on each lane, and the scalar permutation equals Keccak-p[1600,nr]
+// of ref/keccak, on every single-bit state of every lane and on structured states. The direct
+// calls of the unexported scalar fall-backs are a separate in-package unit (lanes_fallback).
 
 import (
 	"fmt"
 	"os"
 	"testing"
+	"unsafe"
 
 	"github.com/cloudflare/circl/internal/sha3"
 	"github.com/cloudflare/circl/internal/verifmc"
 	"github.com/cloudflare/circl/internal/verifref/c15hist"
 	"github.com/cloudflare/circl/internal/verifref/keccak"
+	"github.com/cloudflare/circl/simd/keccakf1600"
 )
-
-type c15LaneCase struct {
-	id     string
-	class  string
-	states [][25]uint64 // one per instance
-}
-
-func c15LaneCases(L int) []c15LaneCase {
-	var cs []c15LaneCase
-	zero := func() [][25]uint64 { return make([][25]uint64, L) }
-	for inst := 0; inst < L; inst++ {
-		for bit := 0; bit < 1600; bit++ {
-			s := zero()
-			s[inst][bit/64] = 1 << uint(bit%64)
-			cs = append(cs, c15LaneCase{fmt.Sprintf("bit/%d/%d", inst, bit), "single-bit", s})
-		}
-	}
-	s := zero()
-	cs = append(cs, c15LaneCase{"zero", "zero", s})
-	s = zero()
-	for i := range s {
-		for j := range s[i] {
-			s[i][j] = ^uint64(0)
-		}
-	}
-	cs = append(cs, c15LaneCase{"ones", "all-ones", s})
-	for inst := 0; inst < L; inst++ {
-		s = zero()
-		for j := range s[inst] {
-			s[inst][j] = ^uint64(0)
-		}
-		cs = append(cs, c15LaneCase{fmt.Sprintf("ones/%d", inst), "all-ones-one-instance", s})
-	}
-	s = zero()
-	for i := range s {
-		for j := range s[i] {
-			s[i][j] = uint64(i+1)*0x0101010101010101 ^ uint64(j)<<32 ^ uint64(j)
-		}
-	}
-	cs = append(cs, c15LaneCase{"laneindex", "lane-index-pattern", s})
-	for k := 0; k < 32; k++ {
-		raw := verifmc.Shake(fmt.Sprintf("c15-lanes-%d", k), 200*L)
-		s = zero()
-		for i := range s {
-			for j := range s[i] {
-				for b := 0; b < 8; b++ {
-					s[i][j] |= uint64(raw[200*i+8*j+b]) << uint(8*b)
-				}
-			}
-		}
-		cs = append(cs, c15LaneCase{fmt.Sprintf("shake/%d", k), "pseudo-random", s})
-	}
-	return cs
-}
 
 func TestVerifC15_lanes(t *testing.T) {
 	if os.Getenv("VERIF_CONFIG") == "appengine" {
@@ -83,11 +31,11 @@ func TestVerifC15_lanes(t *testing.T) {
 	}
 	r.Rule("for lanes in {2,4} and rounds in {24,12}: every state with a single bit set in one instance (1600 x lanes), zero, all-ones (all / one instance), " +
 		"lane-index pattern, 32 fixed pseudo-random states; three successive Permute calls; each instance compared with scalar sha3.KeccakF1600 and with " +
-		"ref/keccak Keccak-p; also permuteScalarX2/X4 directly; states placed at all four 32-byte alignment classes; non-trivial = distinct (lanes, rounds, state)")
-	r.Set("IsEnabledX4", IsEnabledX4())
-	r.Set("IsEnabledX2", IsEnabledX2())
+		"ref/keccak Keccak-p; objects placed at all four 32-byte alignment classes; non-trivial = distinct (lanes, rounds, state)")
+	r.Set("IsEnabledX4", keccakf1600.IsEnabledX4())
+	r.Set("IsEnabledX2", keccakf1600.IsEnabledX2())
 	for _, L := range []int{4, 2} {
-		cases := c15LaneCases(L)
+		cases := c15hist.LaneCases(L)
 		r.Set(fmt.Sprintf("states_x%d", L), len(cases))
 		for _, turbo := range []bool{false, true} {
 			nr := 24
@@ -98,27 +46,26 @@ func TestVerifC15_lanes(t *testing.T) {
 			var coll c15hist.Collector
 			verifmc.ParallelFor(len(cases), func(ci int) {
 				c := cases[ci]
-				id := fmt.Sprintf("x%d/nr=%d/%s", L, nr, c.id)
+				id := fmt.Sprintf("x%d/nr=%d/%s", L, nr, c.ID)
 				if !r.Want(id) {
 					return
 				}
 				r.Distinct(id)
-				// expected after 1, 2, 3 permutations: scalar and spec
 				scalar := make([][25]uint64, L)
 				spec := make([][25]uint64, L)
-				copy(scalar, c.states)
-				copy(spec, c.states)
-				// real objects at all four alignment classes
-				var x4 [4]StateX4
-				var x2 [4]StateX2
+				copy(scalar, c.States)
+				copy(spec, c.States)
+				// real objects: consecutive array elements fall into all four 32-byte alignment classes
+				var x4 [4]keccakf1600.StateX4
+				var x2 [4]keccakf1600.StateX2
 				var bufs [4][]uint64
 				for k := 0; k < 4; k++ {
 					if L == 4 {
 						bufs[k] = x4[k].Initialize(turbo)
-						r.Count(fmt.Sprintf("x4_alignment_offset_%d", x4[k].offset), 1)
+						r.Count(fmt.Sprintf("x4_object_alignment_class_%d", (uintptr(unsafe.Pointer(&x4[k]))&31)>>3), 1)
 					} else {
 						bufs[k] = x2[k].Initialize(turbo)
-						r.Count(fmt.Sprintf("x2_alignment_offset_%d", x2[k].offset), 1)
+						r.Count(fmt.Sprintf("x2_object_alignment_class_%d", (uintptr(unsafe.Pointer(&x2[k]))&31)>>3), 1)
 					}
 					if len(bufs[k]) != 25*L {
 						coll.Add(ci, 0, "C15|"+entry+"|initialize-length", id, fmt.Sprintf("Initialize returned %d words", len(bufs[k])), nil)
@@ -126,19 +73,17 @@ func TestVerifC15_lanes(t *testing.T) {
 					}
 					for i := 0; i < L; i++ {
 						for j := 0; j < 25; j++ {
-							bufs[k][L*j+i] = c.states[i][j]
+							bufs[k][L*j+i] = c.States[i][j]
 						}
 					}
 				}
-				direct := make([]uint64, 25*L) // scalar fall-back called directly
-				copy(direct, bufs[0])
 				for step := 1; step <= 3; step++ {
 					for i := 0; i < L; i++ {
 						sha3.KeccakF1600(&scalar[i], turbo)
 						keccak.P1600(&spec[i], nr)
 						r.Eval(1)
 						if scalar[i] != spec[i] {
-							coll.Add(ci, 0, fmt.Sprintf("C15|sha3.KeccakF1600|differs-from-spec|nr=%d|%s", nr, c.class), id,
+							coll.Add(ci, 0, fmt.Sprintf("C15|sha3.KeccakF1600|differs-from-spec|nr=%d|%s", nr, c.Class), id,
 								fmt.Sprintf("%s: scalar permutation differs from Keccak-p[1600,%d] after %d applications (instance %d)", id, nr, step, i),
 								map[string]interface{}{"case": id})
 							return
@@ -160,8 +105,8 @@ func TestVerifC15_lanes(t *testing.T) {
 						for i := 0; i < L; i++ {
 							for j := 0; j < 25; j++ {
 								if bufs[k][L*j+i] != scalar[i][j] {
-									coll.Add(ci, 0, fmt.Sprintf("C15|%s|lane-differs-from-scalar|nr=%d|%s", entry, nr, c.class), id,
-										fmt.Sprintf("%s: after %d Permute calls instance %d word %d = %016x, scalar KeccakF1600 gives %016x (alignment class %d)",
+									coll.Add(ci, 0, fmt.Sprintf("C15|%s|lane-differs-from-scalar|nr=%d|%s", entry, nr, c.Class), id,
+										fmt.Sprintf("%s: after %d Permute calls instance %d word %d = %016x, scalar KeccakF1600 gives %016x (object %d of 4)",
 											id, step, i, j, bufs[k][L*j+i], scalar[i][j], k),
 										map[string]interface{}{"case": id, "lanes": L, "rounds": nr})
 									return
@@ -169,30 +114,15 @@ func TestVerifC15_lanes(t *testing.T) {
 							}
 						}
 					}
-					if L == 4 {
-						permuteScalarX4(direct, turbo)
-					} else {
-						permuteScalarX2(direct, turbo)
-					}
-					r.Eval(1)
-					for i := 0; i < L; i++ {
-						for j := 0; j < 25; j++ {
-							if direct[L*j+i] != scalar[i][j] {
-								coll.Add(ci, 0, fmt.Sprintf("C15|keccakf1600.permuteScalarX%d|lane-differs-from-scalar|nr=%d|%s", L, nr, c.class), id,
-									fmt.Sprintf("%s: fall-back differs from scalar at instance %d word %d after %d applications", id, i, j, step), nil)
-								return
-							}
-						}
-					}
 				}
 				if ci == 77 || ci == len(cases)-1 {
-					r.Sample(map[string]interface{}{"case": id, "class": c.class})
+					r.Sample(map[string]interface{}{"case": id, "class": c.Class})
 				}
 			})
 			coll.Flush(r)
 		}
 	}
 	for k := 0; k < 4; k++ {
-		r.RequireCounter(fmt.Sprintf("x4_alignment_offset_%d", k), 100)
+		r.RequireCounter(fmt.Sprintf("x4_object_alignment_class_%d", k), 100)
 	}
 }
